@@ -310,10 +310,26 @@ def run(ctx):
     samples = []
     t0 = time.time()
 
-    # ---- phase 1: scenario generators (1 worker each) and the sim runs, <= 4 at a time ---
+    # ---- design constants ------------------------------------------------------------------
+    if q:
+        contract = dict(MaxAttempts=3, MaxFaults=1, Kinds=all_kinds, Orders=[4, post], ConstChoices=[False, True],
+                        TimesChoices=[False, True], MaxSteps=2, LateMax=3)
+    else:
+        contract = dict(MaxAttempts=3, MaxFaults=2, Kinds=all_kinds, Orders=[4, post, 13], ConstChoices=[False, True],
+                        TimesChoices=[False, True], MaxSteps=2, LateMax=3)
+    small = dict(contract, MaxAttempts=2 if q else 3, MaxFaults=1, Orders=[4, post])
+    variants = [("ascoded", dict(small, Leak=True), ["InvRegistry", "InvSeq", "InvBeginRun"]),
+                ("nosort", dict(small, MaxAttempts=3, NoSort=True), ["InvSeq"]),
+                ("warmtimes", dict(small, WarmTimes=True), ["InvTimes"])]
+    design = {}
+
+    # ---- phase 1: scenario generators, the sim runs and the design variants that must be
+    #      refuted (1 TLC worker each), <= 4 at a time -----------------------------------------
     with cf.ThreadPoolExecutor(max_workers=4) as ex:
-        gfut = [(name, c, ex.submit(_generate, ctx, name, c)) for name, c in gens]
+        gfut = [(name, c, ex.submit(_generate, ctx, name, c))
+                for name, c in sorted(gens, key=lambda g: -g[1]["MaxAttempts"] * (1 + 3 * g[1]["MaxFaults"]))]
         sfut = ex.submit(_run_sims, ctx)
+        vfut = [(name, ex.submit(_design, ctx, name, c, expect, 1)) for name, c, expect in variants]
         scen = []
         gen_info = {}
         for name, c, f in gfut:
@@ -321,6 +337,8 @@ def run(ctx):
             gen_info[name] = {"constants": c, "scenarios": len(s), "states": r.distinct, "wall_s": round(r.wall, 1)}
             scen += s
         nsims, simres = sfut.result()
+        for name, f in vfut:
+            design[name] = f.result()
     _merge(ctx, simres, totals, samples)
     t_gen = time.time() - t0
 
@@ -350,28 +368,9 @@ def run(ctx):
             _merge(ctx, f.result(), totals, samples)
     t_val = time.time() - t1
 
-    # ---- phase 3: design check + the variants that must be refuted -------------------------
+    # ---- phase 3: the design check proper (exhaustive within the stated constants) ---------
     t2 = time.time()
-    if q:
-        contract = dict(MaxAttempts=3, MaxFaults=1, Kinds=all_kinds, Orders=[4, post], ConstChoices=[False, True],
-                        TimesChoices=[False, True], MaxSteps=2, LateMax=3)
-    else:
-        contract = dict(MaxAttempts=3, MaxFaults=2, Kinds=all_kinds, Orders=[4, post, 13], ConstChoices=[False, True],
-                        TimesChoices=[False, True], MaxSteps=2, LateMax=3)
-    small = dict(contract, MaxAttempts=2 if q else 3, MaxFaults=1, Orders=[4, post])
-    design = {}
-    with cf.ThreadPoolExecutor(max_workers=2) as ex:
-        fc = ex.submit(_design, ctx, "contract", contract, None, 3, not q)
-
-        def variants():
-            out = {}
-            out["ascoded"] = _design(ctx, "ascoded", dict(small, Leak=True), ["InvRegistry", "InvSeq", "InvBeginRun"], 1)
-            out["nosort"] = _design(ctx, "nosort", dict(small, MaxAttempts=3, NoSort=True), ["InvSeq"], 1)
-            out["warmtimes"] = _design(ctx, "warmtimes", dict(small, WarmTimes=True), ["InvTimes"], 1)
-            return out
-        fv = ex.submit(variants)
-        design["contract"] = fc.result()
-        design.update(fv.result())
+    design["contract"] = _design(ctx, "contract", contract, None, 4, not q)
     t_design = time.time() - t2
 
     # ---- deviations (known findings are matched by ctx.violation) -----------------------
